@@ -49,6 +49,7 @@ type CaseObs struct {
 	Nonstrict    ParseObs    `json:"nonstrict"`
 	Lookups      []LookupObs `json:"lookups"`
 	Panic        string      `json:"panic"`
+	StrictRT     bool        `json:"strictRT"` // compare the parse with the message itself even if the wire is not Wire(m)
 }
 
 func emptyParse(tmpl *Msg) ParseObs {
@@ -476,7 +477,15 @@ func RunReuse(c *Case, pick int, newTxt func(ty string) []byte) ([]*CaseObs, err
 		o.Parse, o.Nonstrict = emptyParse(m), emptyParse(m)
 		return o
 	}
-	return []*CaseObs{mk(c.ID+"/first-bytes-after-second-call", tree1, w1), mk(c.ID+"/second", &c.M, w2)}, nil
+	second := mk(c.ID+"/second", &c.M, w2)
+	// the changed message must also round-trip: what is parsed from the second serialization is the changed message
+	if wellFormedForParse(&c.M) {
+		second.Parsed = true
+		second.StrictRT = true
+		second.Parse = parseInto(&c.M, w2, true)
+		second.Nonstrict = parseInto(&c.M, w2, false)
+	}
+	return []*CaseObs{mk(c.ID+"/first-bytes-after-second-call", tree1, w1), second}, nil
 }
 
 func deepCopyMsg(m *Msg) *Msg {
@@ -485,4 +494,30 @@ func deepCopyMsg(m *Msg) *Msg {
 	_ = json.Unmarshal(b, &out)
 	out.Norm()
 	return &out
+}
+
+// wellFormedForParse: C02's preconditions that a generated case may lack (empty populated values).
+func wellFormedForParse(m *Msg) bool {
+	ok := true
+	var walk func(ns []Node)
+	walk = func(ns []Node) {
+		for i := range ns {
+			switch ns[i].K {
+			case "kv":
+				if ns[i].Pop && len(ns[i].Txt) == 0 {
+					ok = false
+				}
+			case "grp":
+				for _, e := range ns[i].Entries {
+					walk(e)
+				}
+			case "cmp":
+				walk(ns[i].Items)
+			}
+		}
+	}
+	walk(m.Header)
+	walk(m.Body)
+	walk(m.Trailer)
+	return ok
 }
